@@ -139,7 +139,9 @@ Step(e) ==
             ELSE IF Unflushed THEN Flag(Harm({"C01", "C09"}), "quiescent_unflushed")
             ELSE Stutter
       [] e.ev = "finished" ->
-            IF ~closed THEN Flag({"C16"}, "finished_without_close")
+            \* a router that ends while its registration channel is open is a dead topic: nobody who registers
+            \* afterwards is served (C11: every open is answered *truthfully*; C08 when a peer's failure led to it)
+            IF ~closed THEN Flag(Harm({"C16", "C11"}), "finished_without_close")
             ELSE IF Undelivered THEN Flag(Harm({"C16"}), "finished_undelivered")
             ELSE IF Unflushed THEN Flag(Harm({"C16"}), "finished_unflushed")
             ELSE Stutter
